@@ -11,3 +11,5 @@ Check (C05_operator_slices_valid : forall (ws : Z -> bool) (is_num : str -> bool
                 /\ (length l < length e)%nat /\ (length r < length e)%nat).
 Check (C05_bw_expression_parser_total : forall is_alnum is_num is_ws s,
   BwExpr.parse is_alnum is_num is_ws s <> BwExpr.Panic /\ BwExpr.parse is_alnum is_num is_ws s <> BwExpr.Fuel).
+Check (C05_bw_query_parser_total : forall is_alnum is_num is_ws s,
+  BwExpr.query_parse is_alnum is_num is_ws s <> BwExpr.Panic /\ BwExpr.query_parse is_alnum is_num is_ws s <> BwExpr.Fuel).
